@@ -55,7 +55,7 @@ META = {
         "vm_compute for the table generated from the current main.py. TIED by fault enumeration: every "
         "executed stage x exception class x {no file, pre-existing file} on the real main_driver, natural "
         "triggers (incl. BaseException subclasses, failing --pdb-output/--apbs-input writers, closed stdout/stderr), "
-        "and an open()-monitor. The guard stage itself is tied to C02's guard model: C12_generated_guard_tolerance (generated from main.py/utilities.py/config.py: the tolerance is the fixed constant CHARGE_ERROR = TOL/SCALE, no structure-dependent argument) and a differential run of the extracted guard block on 1..5000 residues against guard_ok. SUCCESS half, proved part: C12_guard_never_fires_<FF> (C02's theorem restated per force "
+        "and an open()-monitor. HISTORIES: C12_history_outcomes (outcomes of a sequence of runs = outcomes of the single runs), C12_failing_history_keeps_file, C12_ok_after_failing_history, tied by in-process histories [fail, same again], [ok, fail], [fail, ok], [fail A, fail B] over 12 malformed-input families with a sentinel at the output path. The guard stage itself is tied to C02's guard model: C12_generated_guard_tolerance (generated from main.py/utilities.py/config.py: the tolerance is the fixed constant CHARGE_ERROR = TOL/SCALE, no structure-dependent argument) and a differential run of the extracted guard block on 1..5000 residues against guard_ok. SUCCESS half, proved part: C12_guard_never_fires_<FF> (C02's theorem restated per force "
         "field) - a structure of complete standard residues in parameterised table states cannot be rejected by the "
         "integrality guard - and C12_table_consistent_run_completes_<FF>: on the generated stage table, if the structure "
         "is table-consistent, the guard stage faults iff the modelled guard raises and no other stage faults, the run ends "
@@ -97,6 +97,10 @@ THEOREMS = [
     "C12_guard_is_last_compute_spec",
     "C12_guard_order_nonvacuous",
     "C12_generated_guard_tolerance",
+    "C12_history_outcomes",
+    "C12_failing_history_keeps_file",
+    "C12_ok_after_failing_history",
+    "C12_history_nonvacuous",
 ]
 
 HEADER = (
@@ -236,6 +240,9 @@ def classify(before, after, text_after, handed, whitespace):
     if after.get("kind") == "not-a-file":
         return "not-a-file", ""
     if before is not None and after["sha"] == before["sha"]:
+        ok, why = looks_complete(text_after, handed, whitespace)
+        if ok and handed is not None:
+            return "complete", why + " (rewritten with identical bytes)"
         return "touched", "same bytes, different mtime/inode"
     ok, why = looks_complete(text_after, handed, whitespace)
     return ("complete" if ok else "partial"), why
@@ -511,8 +518,8 @@ class Runner:
         "out": "out.pqr", "ns_edit": {attr: value}, "net": "offline"|"404"}
         -> observation dict"""
         pmain = self.pmain
-        wd = self.workdir()
-        for name, content in case.get("files", {}).items():
+        wd = case.get("_wd") or self.workdir()
+        for name, content in ({} if case.get("_keep_files") else case.get("files", {})).items():
             p = wd / name
             if isinstance(content, dict):
                 p.write_bytes(bytes.fromhex(content["hex"]))
@@ -1508,6 +1515,130 @@ def writer_truncation_check(ctx, runner, smap, structs, preds):
 
 
 # --------------------------------------------------------------------------
+# histories: the 2nd, 3rd ... attempt in ONE process must behave like the first
+
+
+def history_families(structs):
+    """Malformed-input families (each must fail in front of the writer) with the related well-formed run."""
+    P = structs
+    amber = (core.REPO / "pdb2pqr" / "dat" / "AMBER.DAT").read_text()
+    names = (core.REPO / "pdb2pqr" / "dat" / "AMBER.names").read_text()
+    lines = amber.splitlines()
+    mid = len(lines) // 2
+    io_ = ["{wd}/in.pdb", "{wd}/out.pqr"]
+    uf = ["--userff={wd}/bad.DAT", "--usernames={wd}/bad.names", *io_]
+    ok_user = {"files": {"ok.DAT": amber, "ok.names": names}, "argv": ["--userff={wd}/ok.DAT", "--usernames={wd}/ok.names", *io_]}
+    ok_builtin = {"files": {}, "argv": ["--ff=AMBER", *io_]}
+    F = []
+
+    def add(family, files, argv, ok):
+        F.append({"family": family, "files": {"in.pdb": P["pep5"], **ok["files"], **files}, "argv": argv, "ok_argv": ok["argv"]})
+
+    add("userff-trailing-garbage", {"bad.DAT": amber + "\nXXX  YY  notanumber  1.0\n", "bad.names": names}, uf, ok_user)
+    add("userff-trailing-short-line", {"bad.DAT": amber + "\nXXX  YY\n", "bad.names": names}, uf, ok_user)
+    add("userff-garbage-in-the-middle", {"bad.DAT": "\n".join(lines[:mid] + ["ALA  CB  0.1.2  1.9"] + lines[mid:]) + "\n", "bad.names": names}, uf, ok_user)
+    add("userff-nonintegral-total", {"bad.DAT": bad_userff(0.25)[0], "bad.names": names}, uf, ok_user)
+    add("usernames-truncated-xml", {"bad.DAT": amber, "bad.names": names[: len(names) // 2]}, uf, ok_user)
+    add("usernames-empty", {"bad.DAT": amber, "bad.names": ""}, uf, ok_user)
+    add("pdb-garbage-text", {"bad.pdb": "this is not\na structure file\n"}, ["--ff=AMBER", "{wd}/bad.pdb", "{wd}/out.pqr"], ok_builtin)
+    add("pdb-empty", {"bad.pdb": ""}, ["--ff=AMBER", "{wd}/bad.pdb", "{wd}/out.pqr"], ok_builtin)
+    add("pdb-truncated-records", {"bad.pdb": "\n".join(l[:40] for l in P["pep5"].splitlines()) + "\n"}, ["--ff=AMBER", "{wd}/bad.pdb", "{wd}/out.pqr"], ok_builtin)
+    add("pdb-backbone-only", {"bad.pdb": P["backbone-only"]}, ["--ff=AMBER", "{wd}/bad.pdb", "{wd}/out.pqr"], ok_builtin)
+    add("option-ph-out-of-range", {}, ["--ff=AMBER", "--with-ph=15", *io_], ok_builtin)
+    add("ligand-file-garbage", {"in.pdb": P["peplig"], "lig.mol2": "@<TRIPOS>ATOM\n1 C1 x y z C.3\n"}, ["--ff=AMBER", "--ligand={wd}/lig.mol2", *io_], ok_builtin)
+    return F
+
+
+def outcome_key(obs, smap):
+    k = obs.get("raise_stage")
+    return (("raised" if obs["exc"] else "finished"), obs["exc"], obs.get("cause"), smap.stages[k]["name"] if k is not None and k < smap.n else None)
+
+
+def run_history(ctx, runner, smap, fam, ok_ref=None):
+    """One work directory, files written ONCE (the retry sees the same untouched files: same path,
+    size, mtime), a sentinel at the output path.  Steps: F, F again, OK, F, OK.  Every F step is judged
+    by the single-run oracle and must repeat the first F outcome; the file it finds at the output path
+    (sentinel, then the PQR of the OK step) must be left untouched; both OK outputs must be identical
+    (and identical to `ok_ref`, the output of the same well-formed run made before any failing one)."""
+    wd = runner.workdir()
+    base = {"kind": "history", "family": fam["family"], "files": fam["files"], "_wd": wd}
+    plan = [("F", "fail"), ("F", "fail,same-again"), ("OK", "fail,fail,ok"), ("F", "ok,fail"), ("OK", "fail,ok")]
+    bad, first, ok_texts, steps = [], None, [], []
+    obs = None
+    for i, (what, hist) in enumerate(plan):
+        case = dict(base)
+        case["argv"] = fam["argv"] if what == "F" else fam["ok_argv"]
+        case["pre"] = i == 0
+        case["_keep_files"] = i > 0
+        case["trigger"] = f"history:{fam['family']}:{hist}"
+        if what == "F":
+            case["expect"] = "fail"
+        obs = runner.run(case)
+        steps.append((hist, show(obs), obs["exc"]))
+        ctx.count(f"history:{what}:{show(obs)}")
+        ctx.evaluated(("history", fam["family"], i), True)
+        ctx.cov["correspondence_cases"] += 1
+        rec = {k: v for k, v in case.items() if not k.startswith("_")}
+        rec["history_so_far"] = [h for h, _, _ in steps]
+        for sig_what in judge(ctx, smap, case, obs, expect_fail=(what == "F")):
+            bad.append((sig_what[0], sig_what[1], rec, obs))
+        if what == "F":
+            key = outcome_key(obs, smap)
+            if first is None:
+                first = key
+            elif key != first:
+                ctx.cov["correspondence_disagreements"] += 1
+                site = f"main_driver:{first[3]}" if first[3] else "main_driver"
+                bad.append(({"side": "failure", "site": site, "condition": "outcome-depends-on-earlier-runs-in-the-process", "family": fam["family"], "history": hist},
+                            f"{fam['family']}: first attempt {first[:3]} at stage {first[3]}, but after [{hist}] in the same process the identical input gives {key[:3]} "
+                            f"(output path now {obs['state']})", rec, obs))
+        else:
+            ok_texts.append(obs["text"])
+            if obs["exc"]:
+                bad.append(({"side": "success", "site": "main_driver", "condition": "outcome-depends-on-earlier-runs-in-the-process", "family": fam["family"], "history": hist},
+                            f"well-formed run after [{hist}] failed: {obs['cause']}: {obs.get('cause_msg', '')[:100]}", rec, obs))
+    texts = [t for t in ok_texts + ([ok_ref] if ok_ref is not None else []) if t is not None]
+    if len(set(texts)) > 1:
+        ctx.cov["correspondence_disagreements"] += 1
+        bad.append(({"side": "success", "site": "main_driver", "condition": "outcome-depends-on-earlier-runs-in-the-process", "family": fam["family"], "history": "fail,ok-differs-from-fresh-ok"},
+                    f"{fam['family']}: the well-formed run made after failing runs does not write the same bytes as before them",
+                    {"kind": "history", "family": fam["family"], "files": fam["files"], "argv": fam["ok_argv"]}, obs))
+    return bad, steps
+
+
+def history_check(ctx, runner, smap, structs):
+    fams = history_families(structs)
+    # reference outputs of the well-formed runs, made BEFORE any run of the families
+    refs = {}
+    for fam in fams:
+        key = tuple(fam["ok_argv"]) + (fam["files"]["in.pdb"],)
+        if key not in refs:
+            o = runner.run({"kind": "history", "family": "reference", "files": fam["files"], "argv": fam["ok_argv"], "pre": False})
+            refs[key] = o["text"] if not o["exc"] else None
+    for fam in fams:
+        key = tuple(fam["ok_argv"]) + (fam["files"]["in.pdb"],)
+        bad, steps = run_history(ctx, runner, smap, fam, refs[key])
+        for sig, what, rec, obs in bad:
+            report(ctx, [(sig, what)], rec, obs)
+        if fam["family"] == "userff-trailing-garbage":
+            ctx.sample({"history": fam["family"], "steps": [{"history": h, "observed": s_, "exception": e} for h, s_, e in steps]}, limit=8)
+    # [fail(A), fail(B)]: all families twice more, back to back, each in a fresh directory with a sentinel
+    firsts = {}
+    for rnd in (0, 1):
+        for fam in fams:
+            case = {"kind": "history", "family": fam["family"], "files": fam["files"], "argv": fam["argv"], "pre": True, "expect": "fail",
+                    "trigger": f"history:{fam['family']}:fail(A),fail(B)"}
+            obs = runner.run(case)
+            ctx.evaluated(("history-ab", fam["family"], rnd), True)
+            report(ctx, judge(ctx, smap, case, obs, expect_fail=True), case, obs)
+            k = outcome_key(obs, smap)
+            if firsts.setdefault(fam["family"], k) != k:
+                report(ctx, [({"side": "failure", "site": "main_driver", "condition": "outcome-depends-on-earlier-runs-in-the-process", "family": fam["family"], "history": "fail(A),fail(B)"},
+                              f"{fam['family']}: {firsts[fam['family']][:3]} the first time, {k[:3]} after other failing runs")], case, obs)
+    ctx.cov["history_families"] = [f["family"] for f in fams]
+
+
+# --------------------------------------------------------------------------
 # main entry
 
 
@@ -1654,6 +1785,7 @@ def run(ctx):
     if smap.n:
         writer_truncation_check(ctx, runner, smap, structs, preds)
     guard_block_tie(ctx, runner, info)
+    history_check(ctx, runner, smap, structs)
     ctx.cov["stages_total"] = smap.n
     ctx.cov["stages_fault_injected"] = len(covered)
     ctx.cov["stages_never_executed"] = [f"{s['idx']}:{s['name']}" for s in smap.stages if s["idx"] not in covered]
@@ -1741,6 +1873,13 @@ def exec_case(ctx, runner, smap, case):
               "n_res": case.get("n_res", 0), "cells": [], "propka_rows": case.get("propka_rows"), "titrated": case.get("titrated", False)}
         _, obs, bad = run_success(ctx, runner, smap, st, case["ff"], {})
         return bad, obs
+    if kind == "history" and case.get("family") not in (None, "reference"):
+        fam = next((f for f in history_families(structures()) if f["family"] == case["family"]), None)
+        if fam is None:
+            return [], None
+        bad, steps = run_history(ctx, runner, smap, fam)
+        print("history steps:", steps)
+        return [(b[0], b[1]) for b in bad], (bad[0][3] if bad else {"exc": None, "cause": None, "state": "-", "state_why": "", "opens": []})
     if kind == "cli":
         rc, state, why, err = cli_run(runner, case)
         r = {"tag": case["tag"], "rc": rc, "state": state, "why": why, "expect": case["expect"], "stderr_tail": err, "case": case}
